@@ -8,7 +8,6 @@
 package main
 
 import (
-	"reflect"
 	"bytes"
 	"flag"
 	"fmt"
@@ -18,6 +17,7 @@ import (
 	"go/types"
 	"os"
 	"path/filepath"
+	"reflect"
 	"strings"
 
 	"golang.org/x/tools/go/ast/astutil"
@@ -48,7 +48,7 @@ func call(fn string, args ...ast.Expr) *ast.CallExpr {
 	return &ast.CallExpr{Fun: &ast.SelectorExpr{X: ast.NewIdent("vsrt"), Sel: ast.NewIdent(fn)}, Args: args}
 }
 func stmt(e ast.Expr) ast.Stmt { return &ast.ExprStmt{X: e} }
-func kind(k string) ast.Expr  { return &ast.SelectorExpr{X: ast.NewIdent("vsrt"), Sel: ast.NewIdent(k)} }
+func kind(k string) ast.Expr   { return &ast.SelectorExpr{X: ast.NewIdent("vsrt"), Sel: ast.NewIdent(k)} }
 
 // recvChans returns channel expressions of receive operations inside n (not descending into func literals), in source order
 func recvChans(n ast.Node) []ast.Expr {
@@ -123,6 +123,9 @@ func (in *inst) rewriteStmt(s ast.Stmt) []ast.Stmt {
 	case *ast.LabeledStmt:
 		if rs, ok := st.Stmt.(*ast.RangeStmt); ok && (in.isMap(rs.X) || in.isChan(rs.X)) {
 			fail(in, st.Pos(), "labeled range over a map or channel is not supported")
+		}
+		if _, ok := st.Stmt.(*ast.SelectStmt); ok {
+			fail(in, st.Pos(), "labeled select is not supported")
 		}
 		r := in.rewriteStmt(st.Stmt)
 		if len(r) == 1 {
@@ -213,7 +216,7 @@ func (in *inst) rewriteStmt(s ast.Stmt) []ast.Stmt {
 		}
 		return []ast.Stmt{st}
 	case *ast.SelectStmt:
-		fail(in, st.Pos(), "select statements are not supported by the instrumenter")
+		return in.rewriteSelect(st)
 	case *ast.SendStmt:
 		in.funcLits(st.Value)
 		pre := []ast.Stmt{}
@@ -315,6 +318,70 @@ func (in *inst) rewriteChanRange(st *ast.RangeStmt) []ast.Stmt {
 		&ast.AssignStmt{Lhs: []ast.Expr{c}, Tok: token.DEFINE, Rhs: []ast.Expr{st.X}},
 		&ast.ForStmt{Body: &ast.BlockStmt{List: append(list, st.Body.List...)}},
 	}}}
+}
+
+// rewriteSelect: channel and value expressions are evaluated first (as the language does), the
+// scheduler picks the case (or default), the chosen communication is then executed as a plain
+// operation.  With no hooks installed vsrt.Select returns -2 and the original select runs.
+func (in *inst) rewriteSelect(st *ast.SelectStmt) []ast.Stmt {
+	var pre []ast.Stmt
+	var descr []ast.Expr
+	hasDefault := false
+	sw := &ast.SwitchStmt{Body: &ast.BlockStmt{}}
+	orig := &ast.SelectStmt{Body: &ast.BlockStmt{}}
+	idx := 0
+	for _, cc := range st.Body.List {
+		c := cc.(*ast.CommClause)
+		body := in.rewriteList(c.Body)
+		if c.Comm == nil {
+			hasDefault = true
+			sw.Body.List = append(sw.Body.List, &ast.CaseClause{List: []ast.Expr{&ast.BasicLit{Kind: token.INT, Value: "-1"}}, Body: body})
+			orig.Body.List = append(orig.Body.List, &ast.CommClause{Body: body})
+			continue
+		}
+		var comm ast.Stmt
+		switch cm := c.Comm.(type) {
+		case *ast.SendStmt:
+			ch, v := in.tmp("c"), in.tmp("v")
+			pre = append(pre, &ast.AssignStmt{Lhs: []ast.Expr{ch}, Tok: token.DEFINE, Rhs: []ast.Expr{cm.Chan}}, &ast.AssignStmt{Lhs: []ast.Expr{v}, Tok: token.DEFINE, Rhs: []ast.Expr{cm.Value}})
+			comm = &ast.SendStmt{Chan: ch, Value: v}
+			descr = append(descr, &ast.CompositeLit{Type: &ast.SelectorExpr{X: ast.NewIdent("vsrt"), Sel: ast.NewIdent("SelCase")}, Elts: []ast.Expr{&ast.KeyValueExpr{Key: ast.NewIdent("Send"), Value: ast.NewIdent("true")}, &ast.KeyValueExpr{Key: ast.NewIdent("Ch"), Value: ch}}})
+		case *ast.ExprStmt: // <-ch
+			u, ok := cm.X.(*ast.UnaryExpr)
+			if !ok || u.Op != token.ARROW {
+				fail(in, c.Pos(), "unsupported select case")
+			}
+			ch := in.tmp("c")
+			pre = append(pre, &ast.AssignStmt{Lhs: []ast.Expr{ch}, Tok: token.DEFINE, Rhs: []ast.Expr{u.X}})
+			comm = &ast.ExprStmt{X: &ast.UnaryExpr{Op: token.ARROW, X: ch}}
+			descr = append(descr, &ast.CompositeLit{Type: &ast.SelectorExpr{X: ast.NewIdent("vsrt"), Sel: ast.NewIdent("SelCase")}, Elts: []ast.Expr{&ast.KeyValueExpr{Key: ast.NewIdent("Ch"), Value: ch}}})
+		case *ast.AssignStmt: // x := <-ch ; x, ok = <-ch
+			if len(cm.Rhs) != 1 {
+				fail(in, c.Pos(), "unsupported select case")
+			}
+			u, ok := cm.Rhs[0].(*ast.UnaryExpr)
+			if !ok || u.Op != token.ARROW {
+				fail(in, c.Pos(), "unsupported select case")
+			}
+			ch := in.tmp("c")
+			pre = append(pre, &ast.AssignStmt{Lhs: []ast.Expr{ch}, Tok: token.DEFINE, Rhs: []ast.Expr{u.X}})
+			comm = &ast.AssignStmt{Lhs: cm.Lhs, Tok: cm.Tok, Rhs: []ast.Expr{&ast.UnaryExpr{Op: token.ARROW, X: ch}}}
+			descr = append(descr, &ast.CompositeLit{Type: &ast.SelectorExpr{X: ast.NewIdent("vsrt"), Sel: ast.NewIdent("SelCase")}, Elts: []ast.Expr{&ast.KeyValueExpr{Key: ast.NewIdent("Ch"), Value: ch}}})
+		default:
+			fail(in, c.Pos(), "unsupported select case")
+		}
+		sw.Body.List = append(sw.Body.List, &ast.CaseClause{List: []ast.Expr{&ast.BasicLit{Kind: token.INT, Value: fmt.Sprint(idx)}}, Body: append([]ast.Stmt{comm}, body...)})
+		orig.Body.List = append(orig.Body.List, &ast.CommClause{Comm: comm, Body: body})
+		idx++
+	}
+	// pass-through: the original statement (on the evaluated temporaries)
+	sw.Body.List = append(sw.Body.List, &ast.CaseClause{List: []ast.Expr{&ast.BasicLit{Kind: token.INT, Value: "-2"}}, Body: []ast.Stmt{orig}})
+	hd := "false"
+	if hasDefault {
+		hd = "true"
+	}
+	sw.Tag = call("Select", append([]ast.Expr{ast.NewIdent(hd)}, descr...)...)
+	return []ast.Stmt{&ast.BlockStmt{List: append(pre, sw)}}
 }
 
 func (in *inst) rewriteGo(st *ast.GoStmt) []ast.Stmt {
